@@ -63,6 +63,8 @@ type lexer struct {
 	r     io.RuneScanner
 	n     int
 	token chan interface{}
+	next  chan struct{}
+	done  chan struct{}
 
 	mu     sync.Mutex
 	err    error
@@ -76,6 +78,8 @@ func newLexer(env *ExecEnv, r io.RuneScanner) *lexer {
 		env:    env,
 		r:      r,
 		token:  make(chan interface{}),
+		next:   make(chan struct{}),
+		done:   make(chan struct{}),
 		cancel: make(chan struct{}),
 	}
 	verifYield(verifSpawn, l)
@@ -85,6 +89,11 @@ func newLexer(env *ExecEnv, r io.RuneScanner) *lexer {
 
 func (l *lexer) Lex(lval *yySymType) int {
 	verifYield(verifPreRecv, l)
+	// request the next token
+	select {
+	case l.next <- struct{}{}:
+	case <-l.done:
+	}
 	switch tok := (<-l.token).(type) {
 	case token:
 		verifYield(verifPostRecv, l)
@@ -104,6 +113,7 @@ func (l *lexer) run() {
 	defer func() {
 		verifYield(verifTerminal, l)
 		close(l.token)
+		close(l.done)
 
 		if e := recover(); e != nil {
 			if _, ok := e.(bailout); !ok {
@@ -113,6 +123,7 @@ func (l *lexer) run() {
 		}
 	}()
 
+	l.wait()
 	for action := l.lexToken; action != nil; {
 		action = action()
 	}
@@ -361,6 +372,7 @@ func (l *lexer) emit(typ int) {
 	case verifForceSend:
 		l.token <- tok
 		verifYield(verifPostSend, l)
+		l.wait()
 		return
 	case verifForceBail:
 		<-l.cancel
@@ -375,6 +387,34 @@ func (l *lexer) emit(typ int) {
 		// bailout
 		panic(bailout{})
 	}
+	l.wait()
+}
+
+// wait blocks until the parser requests the next token, so that the
+// lexer never runs ahead of the parser.
+func (l *lexer) wait() {
+	select {
+	case <-l.next:
+		select {
+		case <-l.cancel:
+			panic(bailout{})
+		default:
+		}
+	case <-l.cancel:
+		panic(bailout{})
+	}
+}
+
+// stop cancels lexing and waits for the lexer goroutine to finish.
+func (l *lexer) stop() {
+	l.mu.Lock()
+	select {
+	case <-l.cancel:
+	default:
+		close(l.cancel)
+	}
+	l.mu.Unlock()
+	<-l.done
 }
 
 func (l *lexer) read() (rune, error) {
